@@ -154,7 +154,7 @@ def joinMerge (l : Log) (otherE otherH : List Entry) : Log :=
   let entries' := newItems.foldl omSet l.entries
   let nextsFromNew : List Hash := newItems.foldl (fun acc e => acc ++ e.next) []
   let merged := findHeads (omMerge l.heads otherH)
-  let mergedHeads := merged.filter (fun e => !nextsFromNew.contains e.hash && !nextIdx'.contains e.hash)
+  let mergedHeads := merged.filter (fun e => !nextsFromNew.contains e.hash && !nextIdx'.contains e.hash && has entries' e.hash)
   { l with entries := entries', nextIdx := nextIdx', heads := omFromList mergedHeads }
 
 /-- log.go l.598-603: keep the last `size` values, all of them when there are fewer -/
